@@ -1,0 +1,15 @@
+//go:build verif
+
+package markers
+
+// Contracts for the deductive checks in /verif (comment-only; see /verif/DESIGN.md).
+
+/*@
+-- Redactable strings and byte slices handed to the library are well-formed: this is the
+-- hypothesis of properties C01/C08 ("well-formed RedactableString/Bytes"), not something proved.
+invariant (s RedactableString)
+  ensures frag(s, len(s))
+
+invariant (s RedactableBytes)
+  ensures frag(s, len(s))
+@*/
